@@ -262,6 +262,7 @@ type BytesWriter struct {
 	DefaultWriter
 	fakedIOWriter fakeIOWriter
 	flushBytes    *[]byte
+	flushed       bool // the first Flush has published its buffer through flushBytes
 }
 
 func (w *DefaultWriter) reset(wd io.Writer, buf []byte, disableCache bool) {
@@ -377,7 +378,14 @@ type fakeIOWriter struct {
 }
 
 func (w *fakeIOWriter) Write(p []byte) (n int, err error) {
-	*w.bw.flushBytes = p
+	if !w.bw.flushed {
+		// the first buffer starts with the initial contents of the target
+		*w.bw.flushBytes = p
+		w.bw.flushed = true
+	} else {
+		// later flushes carry only what was written since: it follows what the target already holds
+		*w.bw.flushBytes = append(*w.bw.flushBytes, p...)
+	}
 	return len(p), nil
 }
 
